@@ -49,6 +49,13 @@ class EOther(Boom):
     pass
 
 
+class EFalsy(Boom):
+    """A legitimate exception class whose instances are falsy (e.g. a collection of validation errors)."""
+
+    def __len__(self):
+        return 0
+
+
 class Fatal(BaseException):
     def __init__(self, node=None, attempt=None, run=None):
         super().__init__(node, attempt, run)
@@ -65,7 +72,7 @@ class AlreadySaved(Exception):
     pass
 
 
-EXC = {'E1': E1, 'E2': E2, 'E1Sub': E1Sub, 'EOther': EOther, 'Fatal': Fatal,
+EXC = {'E1': E1, 'E2': E2, 'E1Sub': E1Sub, 'EOther': EOther, 'EFalsy': EFalsy, 'Fatal': Fatal,
        'Exception': Exception, 'BaseException': BaseException}
 
 RUN = contextvars.ContextVar('rv_run', default=None)
@@ -174,6 +181,8 @@ def behave(node, kwargs, attempt, run):
         # iteration has identical arguments; it asks for another iteration until it has been invoked
         # `iter_by_attempt` times with these arguments (the attempt counter is keyed by arguments)
         if attempt < plan['iter_by_attempt']:
+            if 'falsy_ad' in plan:
+                return ('next', plan['falsy_ad'][0])       # a falsy payload is a legitimate payload
             return ('next', ('AD', node['id'], attempt + 1, run))
     elif kind == 'dest':
         want = plan.get('want_iter', 0)
